@@ -116,13 +116,13 @@ def run(tier, seed, replay=None):
             except Exception as ex:
                 V.fail("amen_solve[%s] raises %s [%s]" % (name, type(ex).__name__, key), dict(desc, exc=str(ex)[:200])); continue
             for name in ("cpp", "python"):
-                if kind == "diagdom-badly-scaled" and res[name][1] > 3.0 * eps:
+                if kind == "diagdom-badly-scaled" and not (res[name][1] <= 3.0 * eps):
                     # both solvers truncate on the residual: on this family they end below eps (0.3 .. 1 eps); an error of eps ||x|| in the solution shows as ~10 eps here
                     V.fail("amen_solve[%s]: residual exceeds 3*eps on the badly scaled family [%s]" % (name, key), dict(desc, rel_residual=res[name][1]))
-                if res[name][1] > c12.CONST * eps: V.fail("amen_solve[%s]: residual exceeds %g*eps [%s]" % (name, c12.CONST, key), dict(desc, rel_residual=res[name][1]))
+                if not (res[name][1] <= c12.CONST * eps): V.fail("amen_solve[%s]: residual exceeds %g*eps [%s]" % (name, c12.CONST, key), dict(desc, rel_residual=res[name][1]))
             dxy = float((res["cpp"][0] - res["python"][0]).norm() / max(1e-300, float(res["python"][0].norm())))
             cond_slack = 1e3
-            if dxy > cond_slack * eps: V.fail("amen_solve: the two backends disagree beyond the tolerance [%s]" % key, dict(desc, rel_difference=dxy))
+            if not (dxy <= cond_slack * eps): V.fail("amen_solve: the two backends disagree beyond the tolerance [%s]" % key, dict(desc, rel_difference=dxy))
         else:
             d = rng.choice([2, 3, 4, 5]) if i not in (12, 20) else 1      # order 1: a single core, no bond to sweep over
             N = [rng.choice([2, 3, 4, 5]) for _ in range(d)]; M = [rng.choice([2, 3, 4]) for _ in range(d)]
@@ -172,7 +172,7 @@ def run(tier, seed, replay=None):
                     y = A.fast_matvec(x, eps=eps, initial=guess, nswp=nswp, use_cpp=flag)
                     if history.wf_failures(y) or [int(v) for v in y.N] != M: V.fail("fast_matvec[%s]: result has the wrong shape" % name, desc); raise StopIteration
                     ys[name] = float((y.full() - ex).norm())
-                    if ys[name] > 30.0 * eps * nrm + (2e-5 if single else 1e-11) * nrm: V.fail("fast_matvec[%s]: error exceeds 30*eps" % name, dict(desc, rel_err=ys[name] / nrm))
+                    if not (ys[name] <= 30.0 * eps * nrm + (2e-5 if single else 1e-11) * nrm): V.fail("fast_matvec[%s]: error exceeds 30*eps" % name, dict(desc, rel_err=ys[name] / nrm))
                     if y.cores[0].dtype != fdt: V.fail("fast_matvec[%s]: dtype changed" % name, desc)
             except StopIteration:
                 continue
